@@ -8,12 +8,13 @@ from props import common
 
 ID = "C04"
 MODULES = ["Series", "SO2", "SE2", "Rn", "SO3", "SE3", "SE23", "Products"]
-LEAN_TARGETS = ["Props.C04"]
+LEAN_TARGETS = ["Props.C04", "Props.C04E"]
 ANCHORS = ["cyecca/lie/base.py", "cyecca/lie/group_so2.py", "cyecca/lie/group_se2.py", "cyecca/lie/group_rn.py",
            "cyecca/lie/group_so3.py", "cyecca/lie/group_se3.py", "cyecca/lie/group_se23.py",
            "cyecca/lie/direct_product.py"]
 MISSING = [
-    "Ad_exp(x) = exp(ad_x) as a theorem (needs the exp closed form of C02 for Ad; stated through Ad_conj + C02) — search only",
+    "Ad_exp(x) = exp(ad_x): theorem for the SO(3) forms (quaternion, DCM, MRP incl. shadow switch) on the closed-form cells and at zero "
+    "(Props/C04E via C02); SE(2), SE(3), SE_2(3) — search only",
     "SO3Euler Ad homomorphism (product goes through from_Matrix) — search only",
 ]
 
